@@ -1,13 +1,21 @@
 import RreModel.Proto
 import RreModel.C15.Spec
+import RreModel.C15.Clone
 /-
 Driver for C15.
   sequential case  := `S <K> <ops>` (snapshot after the last call) | `T <K> <ops>` (snapshot after every call)
      ops           := comma list of  a<n>.<sal> | A<n>.<sal> (added disabled) | r<n> | e<n> | d<n> | c      (`-` = none)
      the rule added by the op at position i carries tag i
      obs           := step;step;…   step := <out>:<version>[/<snap>]
-     snap          := rules|names|count|bysal|byidx|version|stats|lookups|twin
-  concurrent case  := `C <pre> <t0> <t1> <t2>`  (ops as above plus observers g<n> l n k s i<idx> v t; tag = 100*(thread+1)+pos, pre: pos)
+                      | y  (`spare = kb; kb = kb.clone()`; `XOp.clone`, model `cloneKB`, specification `Spec.clone`)
+                      | z  (exchange `kb` and `spare`; the spare is a fresh knowledge base before the first clone)
+     snap          := rules|names|count|bysal|byidx|version|stats|lookups|twin|export
+                      twin / export = `=` iff get_rules_snapshot / export_to_grl show the get_rules listing (and the export
+                      header name(), version(), rule_count()) — the harness compares them with the observers of the SAME
+                      snapshot, which `snapOk` compares with the specification (`twinsOk`, theorem twins_show_listing)
+  concurrent case  := `C <pre> <t0> <t1> <t2>`  (ops as above plus observers g<n> l n k s i<idx> v t; tag = 100*(thread+1)+pos, pre: pos;
+                      w = get_rules_snapshot and y = clone().get_rules() are calls with the data behaviour of get_rules
+                      (theorem clone_same_listing_lookups), x = export_to_grl shown as the statistics of what it lists = get_statistics)
      obs           := event;event;…  event := <thread>.<pos>:<inv>:<resp>:<out>   (pre-ops are run before the threads start, not recorded)
   drv_c15 model   : case ↦ predicted obs (`-` for concurrent cases: the schedule is not predictable)
   drv_c15 oracle  : `case | obs` ↦ `ok <tags>` / `fail <clause>`  (Spec.runOk, resp. Spec.linearizable)
@@ -38,11 +46,24 @@ def parseOp (tag : Nat) (s : String) : Option Op :=
   | 'i' :: _ => (dropS s 1).toNat?.map .byIndex
   | ['v'] => some .version
   | ['t'] => some .stats
+  | ['w'] => some .getRules
+  | ['x'] => some .stats
   | _ => none
 
 def parseOps (base : Nat) (s : String) : Option (List Op) :=
   let ts := splitList s ","
   ((List.range ts.length).zip ts).mapM fun (i, t) => parseOp (base + i) t
+
+/-- sequential histories: `y` = continue on the clone -/
+def parseXOps (base : Nat) (s : String) : Option (List XOp) :=
+  let ts := splitList s ","
+  ((List.range ts.length).zip ts).mapM fun (i, t) =>
+    if t = "y" then some .clone else if t = "z" then some .swap else (parseOp (base + i) t).map .call
+
+/-- threads of concurrent histories: `y` = observe the listing of a clone -/
+def parseCOps (base : Nat) (s : String) : Option (List Op) :=
+  let ts := splitList s ","
+  ((List.range ts.length).zip ts).mapM fun (i, t) => if t = "y" then some .getRules else parseOp (base + i) t
 
 /-! rendering -/
 def showB (b : Bool) : String := if b then "1" else "0"
@@ -74,7 +95,7 @@ def showOut : Out → String
 def showSnap (s : Snap) : String :=
   "|".intercalate [showList (s.rules.map showRule), showNats (sortNat s.names), toString s.count, showNats s.bysal,
     showList (s.byidx.map fun | some t => toString t | none => "x"), toString s.version, showStats s.stats,
-    showList (s.lookups.map showORule), "="]
+    showList (s.lookups.map showORule), "=", "="]
 
 def showStep (o : StepObs) : String :=
   s!"{showOut o.out}:{o.version}" ++ (match o.snap with | some s => "/" ++ showSnap s | none => "")
@@ -109,26 +130,28 @@ def parseOut (op : Op) (s : String) : Option Out :=
   | .stats => (parseStats s).map .stats
 
 /-- `none` = unparsable; the twin flag (`get_rules_snapshot` = `get_rules`) is returned separately -/
-def parseSnap (s : String) : Option (Snap × Bool) :=
+def parseSnap (s : String) : Option (Snap × Bool × Bool) :=
   match s.splitOn "|" with
-  | [rules, names, count, bysal, byidx, version, stats, lookups, twin] => do
+  | [rules, names, count, bysal, byidx, version, stats, lookups, twin, expo] => do
     let bi ← (splitList byidx ",").mapM fun t => if t = "x" then some none else t.toNat?.map some
     pure ({ rules := ← (splitList rules ",").mapM parseRule, names := ← parseNats? names, count := ← count.toNat?,
             bysal := ← parseNats? bysal, byidx := bi, version := ← version.toNat?, stats := ← parseStats stats,
-            lookups := ← (splitList lookups ",").mapM parseORule }, twin = "=")
+            lookups := ← (splitList lookups ",").mapM parseORule }, (twin = "=", expo = "="))
   | _ => none
 
-def parseStep (op : Op) (s : String) : Option (StepObs × Bool) :=
+def parseStep (op : XOp) (s : String) : Option (StepObs × Bool × Bool) :=
   let (hd, snap) := match s.splitOn "/" with
     | [a] => (a, none)
     | [a, b] => (a, some b)
     | _ => ("", none)
   match hd.splitOn ":" with
   | [o, v] => do
-    let out ← parseOut op o
+    let out ← match op with
+      | .call op => parseOut op o
+      | .clone | .swap => if o = "u" then some .unit else none
     let v ← v.toNat?
     match snap with
-    | none => pure ({ out := out, version := v, snap := none }, true)
+    | none => pure ({ out := out, version := v, snap := none }, true, true)
     | some t => do
       let (sn, twin) ← parseSnap t
       pure ({ out := out, version := v, snap := some sn }, twin)
@@ -137,13 +160,13 @@ def parseStep (op : Op) (s : String) : Option (StepObs × Bool) :=
 structure SeqCase where
   full : Bool
   K : Nat
-  ops : List Op
+  ops : List XOp
 
 def parseSeq (ts : List String) : Option SeqCase :=
   match ts with
   | [k, kk, ops] => do
     let full ← if k = "T" then some true else if k = "S" then some false else none
-    pure { full := full, K := ← kk.toNat?, ops := ← parseOps 0 ops }
+    pure { full := full, K := ← kk.toNat?, ops := ← parseXOps 0 ops }
   | _ => none
 
 structure ConcCase where
@@ -154,7 +177,7 @@ def parseConc (ts : List String) : Option ConcCase :=
   match ts with
   | "C" :: pre :: ths => do
     let pre ← parseOps 0 pre
-    let ths ← ((List.range ths.length).zip ths).mapM fun (i, t) => parseOps (100 * (i + 1)) t
+    let ths ← ((List.range ths.length).zip ths).mapM fun (i, t) => parseCOps (100 * (i + 1)) t
     pure { pre := pre, threads := ths }
   | _ => none
 
@@ -165,12 +188,12 @@ def bulkLine (ts : List String) : Option String :=
   match ts with
   | ["B", kk, pre, bulk] => do
     let K ← kk.toNat?
-    let pre ← parseOps 0 pre
+    let pre ← parseXOps 0 pre
     let bulk ← parseOps pre.length bulk
     if bulk.any (fun op => match op with | .add r => !r.enabled | _ => true) then none else
-    let kb1 := pre.foldl (fun kb op => (step kb op).1) KB.init
+    let kb1 := (xrun {} pre).cur
     let (applied, failed) := bulkApplied kb1 bulk
-    let tr := trace K true KB.init (pre ++ applied ++ [.version])
+    let tr := trace K true kb1 (applied ++ [.version])
     match tr.getLast? with
     | some o =>
       let res := if failed then "gerr" else s!"g{bulk.length}"
@@ -186,25 +209,28 @@ def modelLine (line : String) : String :=
   | _ =>
     match parseSeq ts with
     | some c =>
-      let tr := trace c.K c.full KB.init c.ops
+      let tr := xtrace c.K c.full {} c.ops
       if tr.isEmpty then "-" else ";".intercalate (tr.map showStep)
     | none => "bad-case"
 
-def firstBad (K : Nat) : Nat → Spec → Nat → List Op → List StepObs → Option Nat
+def firstBad (K : Nat) : Nat → STwo → Nat → List XOp → List StepObs → Option Nat
   | _, _, _, [], [] => none
   | i, a, v, op :: ops, o :: os =>
-    if stepOk K a v op o then firstBad K (i + 1) (specStep a op).1 o.version ops os else some i
+    if xstepOk K a v op o then firstBad K (i + 1) (xspecStep a op).1 o.version ops os else some i
   | i, _, _, _, _ => some i
 
 /-- which clause of `stepOk` failed (for the failure signature) -/
-def clauseOf (K : Nat) (a : Spec) (v : Nat) (op : Op) (o : StepObs) : String :=
-  let ex := specStep a op
+def clauseOf (K : Nat) (a : STwo) (v : Nat) (op : XOp) (o : StepObs) : String :=
+  let ex := xspecStep a op
   if !Out.agrees o.out ex.2 then "result"
-  else if !(if Out.changed op ex.2 then v < o.version else o.version == v) then "version"
+  else if !(match op with
+      | .call op => if Out.changed op ex.2 then v < o.version else o.version == v
+      | .clone => o.version == a.cur.rules.length
+      | .swap => o.version == a.spare.version) then (match op with | .clone => "clone-version" | .swap => "original-version-after-clone" | _ => "version")
   else match o.snap with
     | none => "?"
     | some s =>
-      let a' := ex.1
+      let a' := ex.1.cur
       if !(s.rules == a'.listing) then "listing"
       else if !(s.names.isPerm (a'.rules.map (·.name))) then "names"
       else if !(s.count == a'.rules.length) then "count"
@@ -215,23 +241,25 @@ def clauseOf (K : Nat) (a : Spec) (v : Nat) (op : Op) (o : StepObs) : String :=
       else if !(s.lookups == (List.range K).map a'.lookup) then "lookup"
       else "?"
 
-def clauseAt (K : Nat) : Nat → Spec → Nat → List Op → List StepObs → String
+def clauseAt (K : Nat) : Nat → STwo → Nat → List XOp → List StepObs → String
   | 0, a, v, op :: _, o :: _ => clauseOf K a v op o
-  | i + 1, a, _, op :: ops, o :: os => clauseAt K i (specStep a op).1 o.version ops os
+  | i + 1, a, _, op :: ops, o :: os => clauseAt K i (xspecStep a op).1 o.version ops os
   | _, _, _, _, _ => "length"
 
 def seqTags (c : SeqCase) (os : List StepObs) : List String :=
   let outs := os.map (·.out)
-  let a := specRun c.ops
+  let a := (xspecRun {} c.ops).cur
   let t (b : Bool) (s : String) := if b then [s] else []
   let dup := outs.contains .errDup
-  let removed := (c.ops.zip outs).any fun (op, o) => match op, o with | .remove _, .bool true => true | _, _ => false
-  let toggled := (c.ops.zip outs).any fun (op, o) => match op, o with | .setEnabled _ _, .bool true => true | _, _ => false
+  let removed := (c.ops.zip outs).any fun (op, o) => match op, o with | .call (.remove _), .bool true => true | _, _ => false
+  let toggled := (c.ops.zip outs).any fun (op, o) => match op, o with | .call (.setEnabled _ _), .bool true => true | _, _ => false
   let missed := outs.contains (.bool false)
-  let cleared := c.ops.contains .clear
+  let cleared := c.ops.contains (.call .clear)
+  let cloned := c.ops.contains .clone
+  let swapped := c.ops.contains .swap && cloned
   let reorder := a.listing != a.rules
   t dup "dup" ++ t removed "removed" ++ t toggled "toggled" ++ t missed "absent-name" ++ t cleared "cleared"
-    ++ t reorder "reordered" ++ [s!"len{c.ops.length}", s!"stored{a.rules.length}"]
+    ++ t cloned "cloned" ++ t swapped "clone-and-original" ++ t reorder "reordered" ++ [s!"len{c.ops.length}", s!"stored{a.rules.length}"]
     ++ t (dup || removed || reorder || a.rules.length ≥ 2) "nontrivial"
 
 def oracleSeq (c : SeqCase) (obs : String) : String :=
@@ -242,10 +270,11 @@ def oracleSeq (c : SeqCase) (obs : String) : String :=
   | none => "fail unparsable-observation"
   | some xs =>
     let os := xs.map (·.1)
-    if xs.any (fun x => !x.2) then "fail snapshot-twin"
-    else if runOk c.K Spec.init 0 c.ops os then joinSp ("ok" :: seqTags c os)
-    else match firstBad c.K 0 Spec.init 0 c.ops os with
-      | some i => s!"fail {clauseAt c.K i Spec.init 0 c.ops os}@{i}"
+    if xs.any (fun x => !x.2.1) then "fail snapshot-twin"
+    else if xs.any (fun x => !x.2.2) then "fail snapshot-export"
+    else if xrunOk c.K {} 0 c.ops os then joinSp ("ok" :: seqTags c os)
+    else match firstBad c.K 0 {} 0 c.ops os with
+      | some i => s!"fail {clauseAt c.K i {} 0 c.ops os}@{i}"
       | none => "fail runOk"
 
 def parseEvent (c : ConcCase) (idx : Nat) (s : String) : Option Event :=
